@@ -607,6 +607,11 @@ def contract_call(ex, st, contract, args, kwargs, e):
         raise_conds = []
         exact_conds = []
         for (clsname, cls, cond) in contract.raises:
+            if clsname.startswith("@"):
+                pv = env.get(clsname[1:])
+                if pv is None or pv.k != "conc" or not isinstance(pv.z, type):
+                    raise Unsupported("exception class parameter %s is not a constant class" % clsname, e)
+                cls = pv.z
             if cond is not None:
                 cz = ex.ev_spec(old, cond[1])
                 if is_exact(contract, clsname):
